@@ -12,6 +12,7 @@ import (
 	"fmt"
 	"math/rand/v2"
 	"os"
+	"reflect"
 	"runtime"
 	"sort"
 	"strings"
@@ -35,6 +36,7 @@ const (
 
 // G is one simulated goroutine.
 type G struct {
+	dbgAcq string // debugging aid (VERIF_DEBUG_MAP): where this goroutine last learnt of another one's progress
 	ID      int
 	Name    string
 	state   gstate
@@ -209,14 +211,43 @@ func Yield(site string) {
 	if g == nil {
 		return
 	}
+	yieldAt(s, g, site, nil, false)
+}
+
+// YieldAtomic is Yield before an atomic operation on the variable addr points to.
+func YieldAtomic(site string, addr any, load bool) {
+	s, g := ctx()
+	if g == nil {
+		return
+	}
+	yieldAt(s, g, site, addr, load)
+}
+
+func yieldAt(s *Sim, g *G, site string, addr any, load bool) {
 	s.park(g, site, gParked)
 	if s.hb != nil {
 		switch {
 		case isAtomicSite(site):
-			// the atomic operation follows: all atomics synchronise with each other (coarser than reality)
+			// the atomic operation follows: atomics on one variable synchronise with each other (every operation is
+			// taken as acquire and release); where the variable is not known, one clock stands for all of them
+			var key any = atomicKey{}
+			if addr != nil {
+				if v := reflect.ValueOf(addr); v.Kind() == reflect.Pointer && !v.IsNil() {
+					key = atomicVar{v.UnsafePointer()}
+				}
+			}
 			s.mu.Lock()
-			s.hbAcquire(g, atomicKey{})
-			s.hbRelease(g, atomicKey{})
+			if key == (any)(atomicKey{}) {
+				// an operation whose variable is not known may be on any of them
+				g.vc = join(g.vc, s.hb.atomicAll)
+			} else {
+				g.vc = join(g.vc, s.hb.clocks[atomicKey{}])
+			}
+			s.hbAcquire(g, key)
+			if !(load && addr != nil) {
+				s.hb.atomicAll = join(s.hb.atomicAll, g.vc)
+				s.hbRelease(g, key)
+			}
 			s.mu.Unlock()
 		case strings.HasSuffix(site, "#ctxerr"):
 			s.mu.Lock()
